@@ -139,10 +139,10 @@ def run(ctx, R, tier):
                 # everything that advances the subtree lies behind the gate
                 gate = adv[0][0]
                 behind = []
-                for bb, t in pb.calls():
-                    p = callee_path(t) or ''
-                    if p in (TRACK + '::process', 'sound::Sound::process', 'effect::Effect::process',
-                             'track::send::SendTrack::add_input'):
+                from ..rules import op_sites_callees
+                wanted = (TRACK + '::process', 'sound::Sound::process', 'effect::Effect::process', 'track::send::SendTrack::add_input')
+                for bb, cps in op_sites_callees(F, pb, lambda p, t: p in wanted):
+                    for p in cps:
                         behind.append((bb, p))
                 ok = True
                 why = ''
